@@ -50,4 +50,114 @@ theorem matDensity_antitone (refDens d1 d2 : Rat) (hr : 0 < refDens) (h1 : -100 
 
 example : matDensity 8 100 = 1 ∧ matPseudoDensity 8 100 = 2 := by decide +kernel
 
+
+/-! ## interval arithmetic for the regenerated polynomial correlations -/
+
+private theorem rmin_le_left (a b : Rat) : rmin a b ≤ a := by unfold rmin; split <;> linarith
+private theorem rmin_le_right (a b : Rat) : rmin a b ≤ b := by unfold rmin; split <;> linarith
+private theorem le_rmax_left (a b : Rat) : a ≤ rmax a b := by unfold rmax; split <;> linarith
+private theorem le_rmax_right (a b : Rat) : b ≤ rmax a b := by unfold rmax; split <;> linarith
+
+/-- the interval product encloses every product -/
+theorem imul_sound (a b l h x y : Rat) (hxa : a ≤ x) (hxb : x ≤ b) (hyl : l ≤ y) (hyh : y ≤ h) :
+    (imul a b l h).1 ≤ x * y ∧ x * y ≤ (imul a b l h).2 := by
+  have m1 := rmin_le_left (rmin (a * l) (a * h)) (rmin (b * l) (b * h))
+  have m2 := rmin_le_right (rmin (a * l) (a * h)) (rmin (b * l) (b * h))
+  have m3 := rmin_le_left (a * l) (a * h)
+  have m4 := rmin_le_right (a * l) (a * h)
+  have m5 := rmin_le_left (b * l) (b * h)
+  have m6 := rmin_le_right (b * l) (b * h)
+  have n1 := le_rmax_left (rmax (a * l) (a * h)) (rmax (b * l) (b * h))
+  have n2 := le_rmax_right (rmax (a * l) (a * h)) (rmax (b * l) (b * h))
+  have n3 := le_rmax_left (a * l) (a * h)
+  have n4 := le_rmax_right (a * l) (a * h)
+  have n5 := le_rmax_left (b * l) (b * h)
+  have n6 := le_rmax_right (b * l) (b * h)
+  simp only [imul]
+  constructor
+  · rcases le_total 0 y with hy | hy
+    · have h1 : a * y ≤ x * y := by nlinarith [mul_nonneg (sub_nonneg.2 hxa) hy]
+      rcases le_total 0 a with ha | ha
+      · have : a * l ≤ a * y := by nlinarith [mul_nonneg ha (sub_nonneg.2 hyl)]
+        linarith
+      · have : a * h ≤ a * y := by nlinarith [mul_nonneg (neg_nonneg.2 ha) (sub_nonneg.2 hyh)]
+        linarith
+    · have h1 : b * y ≤ x * y := by nlinarith [mul_nonneg (sub_nonneg.2 hxb) (neg_nonneg.2 hy)]
+      rcases le_total 0 b with hb | hb
+      · have : b * l ≤ b * y := by nlinarith [mul_nonneg hb (sub_nonneg.2 hyl)]
+        linarith
+      · have : b * h ≤ b * y := by nlinarith [mul_nonneg (neg_nonneg.2 hb) (sub_nonneg.2 hyh)]
+        linarith
+  · rcases le_total 0 y with hy | hy
+    · have h1 : x * y ≤ b * y := by nlinarith [mul_nonneg (sub_nonneg.2 hxb) hy]
+      rcases le_total 0 b with hb | hb
+      · have : b * y ≤ b * h := by nlinarith [mul_nonneg hb (sub_nonneg.2 hyh)]
+        linarith
+      · have : b * y ≤ b * l := by nlinarith [mul_nonneg (neg_nonneg.2 hb) (sub_nonneg.2 hyl)]
+        linarith
+    · have h1 : x * y ≤ a * y := by nlinarith [mul_nonneg (sub_nonneg.2 hxa) (neg_nonneg.2 hy)]
+      rcases le_total 0 a with ha | ha
+      · have : a * y ≤ a * h := by nlinarith [mul_nonneg ha (sub_nonneg.2 hyh)]
+        linarith
+      · have : a * y ≤ a * l := by nlinarith [mul_nonneg (neg_nonneg.2 ha) (sub_nonneg.2 hyl)]
+        linarith
+
+/-- **interval Horner encloses the polynomial on the whole interval** -/
+theorem polyRange_sound (cs : List Rat) (a b x : Rat) (ha : a ≤ x) (hb : x ≤ b) :
+    (polyRange cs a b).1 ≤ polyEval cs x ∧ polyEval cs x ≤ (polyRange cs a b).2 := by
+  induction cs with
+  | nil => simp [polyRange, polyEval]
+  | cons c cs ih =>
+    have hm := imul_sound a b (polyRange cs a b).1 (polyRange cs a b).2 x (polyEval cs x) ha hb ih.1 ih.2
+    simp only [polyRange, polyEval, List.foldr_cons] at *
+    constructor <;> linarith [hm.1, hm.2]
+
+theorem checkSub_sound (cs : List Rat) (lb ub a w : Rat) (k : Nat) (_hw : 0 ≤ w)
+    (h : checkSub cs lb ub a w (k + 1) = true) (x : Rat) (hx1 : a ≤ x) (hx2 : x ≤ a + ((k + 1 : Nat) : Rat) * w) :
+    lb < polyEval cs x ∧ polyEval cs x < ub := by
+  induction k generalizing a with
+  | zero =>
+    simp only [checkSub, Bool.and_eq_true, decide_eq_true_eq, Bool.and_true] at h
+    have hx2' : x ≤ a + w := by simpa using hx2
+    obtain ⟨s1, s2⟩ := polyRange_sound cs a (a + w) x hx1 hx2'
+    exact ⟨lt_of_lt_of_le h.1 s1, lt_of_le_of_lt s2 h.2⟩
+  | succ k ih =>
+    rw [checkSub] at h
+    simp only [Bool.and_eq_true, decide_eq_true_eq] at h
+    obtain ⟨⟨h1, h2⟩, h3⟩ := h
+    rcases le_total x (a + w) with hle | hge
+    · obtain ⟨s1, s2⟩ := polyRange_sound cs a (a + w) x hx1 hle
+      exact ⟨lt_of_lt_of_le h1 s1, lt_of_le_of_lt s2 h2⟩
+    · apply ih (a + w) h3 hge
+      have : (a : Rat) + ((k + 1 + 1 : Nat) : Rat) * w = a + w + ((k + 1 : Nat) : Rat) * w := by push_cast; ring
+      linarith
+
+/-- **what a checked piece establishes: the polynomial stays strictly inside (lb, ub) at EVERY temperature of [lo, hi]** -/
+theorem checkPiece_sound (p : Piece) (h : checkPiece p = true) (T : Rat) (h1 : p.lo ≤ T) (h2 : T ≤ p.hi) :
+    p.lb < polyEval p.cs T ∧ polyEval p.cs T < p.ub := by
+  simp only [checkPiece, Bool.and_eq_true, decide_eq_true_eq] at h
+  obtain ⟨⟨hn, hle⟩, hc⟩ := h
+  have hnpos : (0 : Rat) < (p.n : Rat) := by exact_mod_cast hn
+  have hw : 0 ≤ (p.hi - p.lo) / p.n := div_nonneg (by linarith) (le_of_lt hnpos)
+  have key : ∀ (n : Nat) (w : Rat), 0 < n → 0 ≤ w → checkSub p.cs p.lb p.ub p.lo w n = true → T ≤ p.lo + (n : Rat) * w →
+      p.lb < polyEval p.cs T ∧ polyEval p.cs T < p.ub := by
+    intro n w hn0 hw0 hcs hT
+    obtain ⟨k, rfl⟩ : ∃ k, n = k + 1 := ⟨n - 1, by omega⟩
+    exact checkSub_sound p.cs p.lb p.ub p.lo w k hw0 hcs T h1 hT
+  apply key p.n _ hn hw hc
+  have : p.lo + (p.n : Rat) * ((p.hi - p.lo) / p.n) = p.hi := by field_simp; ring
+  linarith
+
+/-- **a checked expansion piece of a material that uses the base-class formulas: density and pseudo-density are positive at
+every temperature of [lo, hi]** -/
+theorem checkDensityPiece_sound (p : Piece) (h : checkDensityPiece p = true) (T : Rat) (h1 : p.lo ≤ T) (h2 : T ≤ p.hi) :
+    0 < matDensity p.refDens (polyEval p.cs T) ∧ 0 < matPseudoDensity p.refDens (polyEval p.cs T) := by
+  simp only [checkDensityPiece, Bool.and_eq_true, decide_eq_true_eq] at h
+  obtain ⟨⟨hc, hlb⟩, hr⟩ := h
+  have := (checkPiece_sound p hc T h1 h2).1
+  exact matDensity_pos _ _ hr (by linarith)
+
+example : checkPiece ⟨"demo", "f", 0, 10, [1, -1, 1/10], 0, 100, 8, 0⟩ = false ∧
+    checkPiece ⟨"demo", "f", 0, 10, [3, -1, 1/10], 0, 100, 64, 0⟩ = true := by decide +kernel
+
 end ArmiVerif.Nuclide
